@@ -6,3 +6,10 @@ package expression
 
 //@ type $globals
 //@   field enginesMap nonnil guarded_by enginesLock
+
+// Interface contract: an evaluation is one Call event carrying the engine and the data it evaluates on; what the
+// engine does inside is not modelled (the result is arbitrary).
+//@ func IEvaluator.EvaluateExpression
+//@   assumed
+//@   modifies nothing
+//@   emits Call(code("expression|IEvaluator.EvaluateExpression"), this, data)
